@@ -186,3 +186,41 @@ Definition session_ka (cfg : config) (cmax : version) (k1 k2 : nat) (r1 r2 : rea
 
 Definition neg_frames_only (fs : list frame) : list frame :=
   filter (fun f => is_neg_type (m_typ f)) fs.
+
+(* ---- all subsequent traffic ------------------------------------------------------------------ *)
+(* After Connect has proceeded: callers send requests (SendMessage / SendFor / SendNoWait), the
+   reader answers them in whatever way it likes, keep-alives arrive.  What the client does with an
+   answer (SendFor 527-566, SendMessage 576-617: decode, turn an LLRPStatus into an error value)
+   is between the reply channel and the caller's return value; nothing on that path assigns
+   Client.version.  The answer is an event parameter so that this can be said for every answer. *)
+Inductive answer :=
+| AnsSuccess                                  (* the expected response type, status Success *)
+| AnsStatus (in_error_message : bool) (st : N)(* status st in an ERROR_MESSAGE / in the expected response type *)
+| AnsWrongType (t : N)
+| AnsNone.                                    (* no reply: the caller's context ends the wait *)
+
+Inductive post_event :=
+| PRequest (typ : N) (payload : list N)   (* the write loop writes a caller's request *)
+| PAnswer (a : answer)                    (* the caller of the oldest outstanding request gets its answer (or gives up) *)
+| PKeepAlive.                             (* a KEEPALIVE arrives and is acknowledged *)
+
+Record post_state := mkPost { p_ver : version; p_out : list frame }.
+
+Definition post_step (cfg : config) (s : post_state) (e : post_event) : post_state :=
+  match e with
+  | PRequest t p => mkPost (p_ver s) (p_out s ++ [stamp cfg (p_ver s) (new_message cfg t p)])
+  | PAnswer _ => s
+  | PKeepAlive => mkPost (p_ver s) (p_out s ++ [stamp cfg (p_ver s) ack_message])
+  end.
+
+Definition post_run (cfg : config) (v : version) (evs : list post_event) : post_state :=
+  fold_left (post_step cfg) evs (mkPost v []).
+
+(* a whole session with arbitrary traffic afterwards *)
+Definition session_post (cfg : config) (cmax : version) (k1 k2 : nat) (r1 r2 : reaction)
+  (evs : list post_event) : neg_result * post_state :=
+  let r := negotiate_ka cfg cmax k1 k2 r1 r2 in
+  (r, match n_outcome r with
+      | Proceeds => post_run cfg (n_version r) evs
+      | Fails => mkPost (n_version r) []
+      end).
